@@ -1057,6 +1057,8 @@ def run_history(rng, flavour, n_ops, fixed=None, tag="c12"):
             stepobs = []
             if isbob:
                 rc, text = r
+                if "Traceback" in text and "BrokenProcessPool" not in text:
+                    raise RuntimeError("bob crashed: " + text[-1200:])
                 if "Parse error" in text or "Traceback" in text:
                     raise Skip("bob rejected the project: " + text[-400:])
                 if op["cmd"] in ("dev", "dev-cc"):
@@ -1187,9 +1189,16 @@ def run(ctx):
         "semantics is validated only differentially by these runs against git 2.39",
         "not modelled: rebase, submodules, shallow clones, rev/refs, remote-*, url extraction/separateDownload/mirrors, svn, cvs, "
         "checkoutScript, build-only mode, Jenkins; user actions only inside git directories; tags never move upstream",
-        "user_objects_monotone assumes valid recipes (input.py nesting rules) and that upstream refs / recipe commits never name "
-        "a commit the user created locally (definition of 'unpushed')",
-        "untouched_converges is proved only in the _partial form (see Properties.v); the three excluded shapes are known findings",
+        "PROVED (unbounded, closed): user_objects_monotone over arbitrary sequences of bob dev [--clean-checkout] / clean -s / "
+        "clean --attic with arbitrary valid recipes and upstream states (assumes: recipes valid per input.py nesting rules, "
+        "upstream refs and recipe commits never name a commit the user created locally = definition of 'unpushed', the commit "
+        "history of upstream commits is upstream); attic_nested_consistent (loop over checkoutsFromState order); "
+        "clean_requires_expendable for -s and --attic (nested form of bec5372); expendable => no user object",
+        "untouched_converges is proved only in the _partial form (git level: switch / update / fresh checkout, url digest rule); "
+        "the excluded shapes ahead_of_upstream, stale_local_tag, url digest change and history rewrite are the four known findings "
+        "with _refuted / _stuck witnesses; project level convergence is only exercised by the correspondence and the oracle",
+        "EXERCISED ONLY (differential): the git semantics themselves, import copy/prune mtime rules, DevelopDirOracle directory "
+        "naming, bob's output format used to read its decisions",
     ]
     if ctx.replay:
         d = json.load(open(ctx.replay))
@@ -1215,6 +1224,9 @@ def run(ctx):
     def one(job):
         name, seed, fl, n, fixed = job
         h = run_history(random.Random(seed), fl, n, fixed=fixed)
+        if h["error"] and "BrokenProcessPool" in h["error"]:
+            # Bob's own worker pool died (machine overload): not a property of the history, run it again
+            h = run_history(random.Random(seed), fl, n, fixed=fixed)
         h["name"] = name
         return h
     t0 = time.time()
